@@ -15,3 +15,21 @@ Open Scope string_scope.
 
 Definition expected_racy : list string :=
   [ "streams/lunar-context.lunarContext.transactionalContext" ].
+
+(* The function bodies that other properties' models treat as ONE atomic step
+   (lockset/config.json atomic_steps), each with the translator's verdict "" = "a
+   single critical section of its lock". Pinned by equality: removing a claim from
+   the configuration, or a body that stops being one critical section, makes
+   [C18_tree_atomic_steps_pinned] fail to compile. *)
+Definition expected_atomic_report : list (string * string) := [
+  ("config.(TxnPoliciesAccessor).setNextVersion", "");
+  ("config.(TxnPoliciesAccessor).setTxnVersion", "");
+  ("streams/lunar-context.(memoryState).AtomicIncWindow", "");
+  ("streams/lunar-context.(memoryState).AtomicSAddWithMaxValuesAllowed", "");
+  ("streams/lunar-context.(memoryState).SRem", "");
+  ("streams/processors/queue.(RequestWatcher).AddRequestIfBelow", "");
+  ("streams/processors/queue.(RequestWatcher).StopAll", "");
+  ("streams/resources/quota.(quota).Allowed", "");
+  ("streams/resources/quota.(quota).Inc", "");
+  ("utils/limit.(singleRateLimitState).TryToIncrement", "")
+].
